@@ -3,6 +3,7 @@ from ir import last_seg
 import analysis as A
 import common as K
 import predicates as P
+import dtable
 
 WRITE_PREFIXES = ("save_", "replace_", "invalidate_", "mark_", "rollback_", "release_", "create_group_snapshot", "delete_", "prune_")
 
@@ -71,6 +72,89 @@ def _parses_welcome(prog, t):
     return any(x.name == "build_from_welcome" and last_seg(x.self_adt) == "StagedWelcome" for p in prog.extent(t) if p in prog.fns for x in prog.fns[p].live_calls())
 
 
+def _active_cmp(g, c):
+    """(polarity) for `x.state ==/!= GroupState::Active` comparisons: True if the call's result is true exactly when Active"""
+    if c.name not in ("eq", "ne") or c.expn or len(c.args) != 2:
+        return None
+    ds = [P.describe(g, a) for a in c.args]
+    if ("field", "state") in ds and ("const", "Active") in ds:
+        return c.name == "eq"
+    return None
+
+
+def _closure_is_active_test(prog, cl):
+    """does the bool closure return true exactly when its argument's state is Active (decision table over the comparison
+    and every other condition it contains)?  returns polarity (True: closure true <=> Active) or None"""
+    cmps = [(c, _active_cmp(cl, c)) for c in cl.live_calls()]
+    cmps = [(c, p) for c, p in cmps if p is not None]
+    if cl.ret != "bool" or not cmps:
+        return None
+    outcome = {}
+    for active in (0, 1):
+        def hook(cal, args, active=active):
+            if cal.get("name") in ("eq", "ne") and last_seg(cal.get("trait")) == "PartialEq":
+                # only the state comparison is decided; any other comparison forks
+                for c, pol in cmps:
+                    if c.callee is cal or (c.callee.get("path") == cal.get("path") and "GroupState" in " ".join(cal.get("gen") or [])):
+                        r = active if cal.get("name") == "eq" else 1 - active
+                        return ("int", r)
+            return None
+        ev = dtable.Evaluator(cl, lambda v: None, lambda a, b: None, lambda bb, v, t: None, call_hook=hook)
+        try:
+            res = ev.run_all({l: ("param", "arg%d" % l, l) for l in range(1, cl.nargs + 1)})
+        except dtable.Undecided:
+            return None
+        outs = set(r[1] if r and r[0] == "int" else None for r in res)
+        outcome[active] = outs
+    if outcome.get(1) == {1} and outcome.get(0) == {0}:
+        return True
+    if outcome.get(1) == {0} and outcome.get(0) == {1}:
+        return False
+    return None
+
+
+def state_guarded(prog, f, site_bb):
+    """is the site reachable only when the record found by a lookup of the group id is NOT Active?
+    (`existing.state == GroupState::Active` false side, `!=` true side, or `.is_some_and(|g| g.state == Active)` false side;
+    a closure test must be exactly the Active test — extra conditions would let an Active group through)"""
+    lookup = A.ReachCache(prog, lambda x: K.is_storage_trait_call(x, "find_group_by_mls_group_id"))
+    cands = []   # (call, polarity: result true <=> Active)
+    for c in f.live_calls():
+        pol = _active_cmp(f, c)
+        if pol is not None:
+            cands.append((c, pol))
+        for a in c.args:
+            if "p" not in a:
+                continue
+            for bb, kind, x in f.defs().get(a["p"][0], []):
+                if kind == "stmt" and x.get("k") == "closure" and x["closure"] in prog.fns and c.name in ("is_some_and", "map_or", "is_none_or"):
+                    pol2 = _closure_is_active_test(prog, prog.fns[x["closure"]])
+                    if pol2 is not None and c.name == "is_some_and":
+                        cands.append((c, pol2))
+    for c, pol in cands:
+        dep_ok = False
+        for a in c.args:
+            if "p" in a:
+                dep, calls, _ = f.depends_on(a["p"][0])
+                if any(lookup.call(y) for y in calls):
+                    dep_ok = True
+        if not dep_ok:
+            continue
+        t_edges = A.bool_true_edges(f, c)
+        if not t_edges:
+            continue
+        f_edges = set()
+        for (w, s_) in t_edges:
+            for s2 in f.succs()[w]:
+                if s2 != s_:
+                    f_edges.add((w, s2))
+        not_active_edges = f_edges if pol else t_edges
+        # every path to the site takes a "not Active" edge
+        if site_bb not in A.reach_without_edges(f, 0, not_active_edges):
+            return True
+    return False
+
+
 def clause_existing_group(prog, rep, pw):
     """writes keyed by the inviter-chosen group id must depend on a lookup of that id (existing Active group untouched)"""
     lookups = [c for c in pw.live_calls() if A.ReachCache(prog, lambda x: K.is_storage_trait_call(x, "find_group_by_mls_group_id")).call(c)
@@ -78,16 +162,7 @@ def clause_existing_group(prog, rep, pw):
     for c in pw.live_calls():
         if not K.is_storage_trait_call(c, "save_group", "replace_group_relays"):
             continue
-        cds = A.control_dependent_switches(pw, c.bb)
-        ok = False
-        for w in cds:
-            l = A._opl(pw.term(w)["discr"])
-            og = A.origins(prog, pw, l, scope=None, max_frames=2)
-            looked = og.has_call(lambda x: K.is_storage_trait_call(x, "find_group_by_mls_group_id")) or any(x in lookups for x in og.calls)
-            active = any(isinstance(k, dict) and k.get("variant") == "Active" and last_seg(k.get("agg")) == "GroupState" for _, _, k in og.consts) \
-                or any(isinstance(k, dict) and "promoted" in k for _, _, k in og.consts)
-            if looked and ("state" in og.fields or active):
-                ok = True
+        ok = state_guarded(prog, pw, c.bb)
         rep.check(ok, "existing-group-untouched", "MDK::process_welcome/%s" % c.name,
                   "the write under the inviter-chosen group id depends on the state of an existing record for that id",
                   "process_welcome upserts a Pending record (and relays) under the MLS group id found inside the welcome without looking at an "
@@ -114,12 +189,7 @@ def clause_accept_decline(prog, rep):
                           "the group becomes Active only after StagedWelcome::into_group succeeded", "Active can be stored although joining failed", c.loc())
         # joining replaces an MLS group with the same id: must not happen to an active one
         for c in ig:
-            cds = A.control_dependent_switches(f, c.bb)
-            ok = False
-            for w in cds:
-                og = A.origins(prog, f, A._opl(f.term(w)["discr"]), scope=None, max_frames=2)
-                if og.has_call(lambda x: K.is_storage_trait_call(x, "find_group_by_mls_group_id")) and "state" in og.fields:
-                    ok = True
+            ok = state_guarded(prog, f, c.bb)
             rep.check(ok, "existing-group-untouched", "MDK::accept_welcome/StagedWelcome::into_group",
                       "joining depends on the state of an existing group with the same id",
                       "accept_welcome joins with replace_old_group() without looking at an existing record: accepting a crafted invitation "
@@ -128,6 +198,14 @@ def clause_accept_decline(prog, rep):
         writes = set("%s::%s" % x for x in P.field_const_writes(prog, f, "state"))
         rep.check(writes == {"GroupState::Inactive", "WelcomeState::Declined"}, "consent", "decline/states", "decline writes Inactive + Declined",
                   "decline_welcome writes %s" % sorted(writes), f.loc())
+        for c in f.live_calls():
+            if not K.is_storage_trait_call(c, "save_group"):
+                continue
+            ok = state_guarded(prog, f, c.bb)
+            rep.check(ok, "existing-group-untouched", "MDK::decline_welcome/save_group",
+                      "marking the group Inactive depends on the state of the existing record",
+                      "decline_welcome stores Inactive under the sender-chosen MLS group id whatever the existing record's state: declining a "
+                      "crafted invitation disables a group the user is active in", c.loc())
 
 
 def clause_pending_only(prog, rep, pw):
